@@ -10,7 +10,7 @@ def run(ctx):
     rep.explanation = ('Static MIR analysis. PROV-CTX: cbrt_with_context -> impl_cbrt_int_scale -> impl_cbrt_uint_scale hand on ctx.precision and '
                        'ctx.rounding, and the final rounding (InsigData) receives the rounding data unchanged. R-SIGN: the rounding data is built with '
                        'n.sign() and the result is re-signed with that very value. R-TABLE: needs_trailing_zeros (the lazily evaluated tail flag) is '
-                       'consistent with round_pair. R-STICKY: radicand consulted again after nth_root. R-SCALE (dimension bookkeeping): on every path of impl_cbrt_uint_scale - all three residues of the scale mod 3, with and without padding - the dimension of nth_root(n*10^shift, 3) minus the trimmed digits equals the scale of the constructed result (linear arithmetic over the div_rem fact shifted = 3q + r). NOT decided: the digits of the root.')
+                       'consistent with round_pair. R-STICKY: radicand consulted again after nth_root. ROOT-SHAPE: the lazily evaluated discarded-part-is-zero flag is true only on paths that establish nth_root(R,3)^3 == R. R-SCALE (dimension bookkeeping): on every path of impl_cbrt_uint_scale - all three residues of the scale mod 3, with and without padding - the dimension of nth_root(n*10^shift, 3) minus the trimmed digits equals the scale of the constructed result (linear arithmetic over the div_rem fact shifted = 3q + r). NOT decided: the digits of the root.')
     F = ctx.facts('default', 'rel')
     fns = roots.family(F, r'cbrt')
     rep.entries['cbrt family'] = [f.key for f in fns]
@@ -19,6 +19,9 @@ def run(ctx):
     cells, table = TR.round_pair_table(rep, F)
     n3 = TR.needs_tz_crosscheck(rep, F, table)
     n4 = S.sticky(rep, F, fns)
+    from rules import rootshape
+    nrs = rootshape.check_cbrt(rep, F)
+    rep.floor('root-shape obligations (exact flag)', nrs, 1)
     ndf = roots.default_form(rep, F, r'cbrt')
     rep.floor('default-context form', ndf, 1)
     nkg = roots.kernel_gates(rep, F, r'cbrt')
